@@ -10,7 +10,7 @@ _state = {"files": {}, "on": False}
 
 
 def executable_lines(path):
-    """line numbers that carry code, and {function qualname: first body line} for every function in the file"""
+    """line numbers inside function bodies, and {function qualname: its body lines} for every function in the file"""
     try:
         src = open(path).read()
         top = compile(src, path, "exec")
@@ -21,11 +21,10 @@ def executable_lines(path):
     while stack:
         co = stack.pop()
         ls = [l for (_, _, l) in co.co_lines() if l is not None]
-        if co.co_name != "<module>" and ls:
-            body = sorted(set(ls))
-            funcs[co.co_qualname] = body[1] if len(body) > 1 else body[0]
-        if co.co_flags & 0x1:     # CO_OPTIMIZED: function bodies only (module and class bodies run at import, before the monitor starts)
-            lines.update(ls[1:] if len(ls) > 1 else ls)
+        if co.co_flags & 0x1 and ls:  # CO_OPTIMIZED: function bodies only (module and class bodies run at import, before the monitor starts)
+            body = sorted(set(ls))[1:] or sorted(set(ls))
+            funcs.setdefault(co.co_qualname, set()).update(body)     # getter and setter of a property share one qualname
+            lines.update(body)
         for c in co.co_consts:
             if hasattr(c, "co_lines"):
                 stack.append(c)
@@ -88,7 +87,7 @@ def summarise(repo, merged):
     for p, hit in sorted(merged.items()):
         ex, funcs = executable_lines(p)
         hit = set(hit) & ex if ex else set(hit)
-        never = sorted(q for q, l in funcs.items() if l not in hit and not q.split(".")[-1].startswith("__"))
+        never = sorted(q for q, l in funcs.items() if not (l & hit) and not q.split(".")[-1].startswith("__") and "<" not in q)
         rel = os.path.relpath(p, os.path.realpath(repo))
         out[rel] = {"executed_lines": len(hit), "executable_lines": len(ex), "functions_never_entered": never[:40],
                     "lines_not_executed": _ranges(sorted(ex - hit))[:600]}
